@@ -22,6 +22,11 @@ ALLOW = {
     "<grin_core::core::block::UntrustedBlockHeader as grin_core::ser::Readable>::read|Add::add": (1, "Utc::now() + small configured duration (future time limit)"),
     "grin_core::global::get_chain_type::{closure#0}|panicking::panic_fmt": (1, "configuration precondition: chain type is initialised at start-up before any peer connects"),
     "grin_util::OneTime::borrow|Option::expect": (1, "configuration precondition: one-time globals are initialised at start-up"),
+    # reached through upstream generic code (Iterator::collect -> IteratingReader::next -> T::read; error Display of a Hash)
+    "<grin_core::core::id::ShortId as grin_core::ser::Readable>::read|slice::copy_from_slice": (1, FIXED + " (SHORT_ID_SIZE = 6; rule shortid-len)"),
+    "<grin_core::core::hash::Hash as core::fmt::Debug>::fmt|Index::index": (1, "[..12] of the 64-character hex rendering of a 32-byte hash"),
+    "grin_util::hex::to_hex|Result::expect": (1, "fmt::Write into a String never returns Err"),
+    "grin_util::hex::to_hex|String::with_capacity": (1, "2 x the length of a byte slice that is already in memory (a 32-byte hash on the decoder paths)"),
     # serialisation primitives
     "<grin_core::ser::BinReader<'a, R> as grin_core::ser::Reader>::read_fixed_bytes|vec::from_elem": (1, "length > 100_000 is refused first (guard rule fixed-bytes-cap-bin)"),
     "<grin_core::ser::BufReader<'a, B> as grin_core::ser::Reader>::read_fixed_bytes|vec::from_elem": (1, "has_remaining(len) succeeded first (guard rule buf-*-guarded)"),
@@ -157,6 +162,7 @@ def run(c):
                  desc="Hash::read reads exactly 32 bytes before copy_from_slice into [u8; 32]")
     c.r2_arg("commitment-len", "<secp256k1zkp::pedersen::Commitment as grin_core::ser::Readable>::read", "grin_core::ser::Reader::read_fixed_bytes", 1, text=r"^(const:\S*PEDERSEN_COMMITMENT_SIZE=33|33)$")
     c.r2_arg("signature-len", "<secp256k1zkp::Signature as grin_core::ser::Readable>::read", "grin_core::ser::Reader::read_fixed_bytes", 1, text=r"^(const:\S*AGG_SIGNATURE_SIZE=64|64)$")
+    c.r2_arg("shortid-len", "<grin_core::core::id::ShortId as grin_core::ser::Readable>::read", "grin_core::ser::Reader::read_fixed_bytes", 1, text=r"^(const:\S*SHORT_ID_SIZE=6|6)$")
     c.r2_arg("peer-addr-v4-len", "<grin_p2p::types::PeerAddr as grin_core::ser::Readable>::read", "grin_core::ser::Reader::read_fixed_bytes", 1, text=r"^4$")
     c.r2_arg("body-alloc-len", "grin_p2p::msg::read_body", "re:alloc::vec::from_elem$", 1, must=["arg0.msg_len"])
     c.r2("segment-item-count", "grin_core::core::pmmr::segment::read_segment_item_count", ops={"Gt"}, lhs=["call:Reader::read_u64"], rhs=["re:^item:.*MAX_SEGMENT_READ_ITEMS="],
@@ -169,6 +175,14 @@ def run(c):
          desc="MsgHeaderWrapper::read: msg_len of an unknown type above the default limit is refused")
     c.r2("msg-limit-dominates", MH, ops={"Gt"}, lhs=["call:Reader::read_u64"], rhs=["re:^call:msg::(default_)?max_msg_size$", "op:MulWithOverflow", "const:4"], err="TooLargeReadErr", min_guards=2,
          desc="MsgHeaderWrapper::read: every ok exit passed the false edge of a `msg_len > limit` comparison")
+    # a workspace iterator that reports a size hint makes `collect()` pre-allocate from it: on the decoder paths the element count comes off
+    # the wire (read_multi: up to 1_000_000), so no workspace `size_hint`/`len` override may be reachable (positive control: the walk passes
+    # through Iterator::collect into IteratingReader::next)
+    c.r4_fn("no-wire-size-hint", "grin_p2p", P2P_ROOTS, r"re:^<grin.* as core::iter::traits::(iterator::Iterator>::size_hint|exact_size::ExactSizeIterator>::len)$", floor_roots=6,
+            control=r"re:^<grin_core::ser::IteratingReader<.*> as core::iter::traits::iterator::Iterator>::next$",
+            desc="no workspace Iterator::size_hint / ExactSizeIterator::len is reachable from the p2p decoders (collect() must not pre-allocate from a wire count)")
+    c.r4_fn("no-wire-size-hint-core", "grin_core", CORE_ROOTS, r"re:^<grin.* as core::iter::traits::(iterator::Iterator>::size_hint|exact_size::ExactSizeIterator>::len)$", floor_roots=8,
+            desc="no workspace Iterator::size_hint / ExactSizeIterator::len is reachable from the core decoders and read-time validators")
     # `impl Readable for Vec<T>` (unbounded) must not be reachable from the decoders
     c.r4("no-unbounded-vec-read", "grin_p2p", P2P_ROOTS, {"unbounded": __import__("re").compile(r"^<alloc::vec::Vec<T> as grin_core::ser::Readable>::read$")}, {},
          floor_roots=6, floor_reach=300, asserts=(), desc="the unbounded `impl Readable for Vec<T>` is not reachable from the p2p decoders")
